@@ -88,10 +88,21 @@ func c03Table(w *W, y int) {
 	if len(tbl) != 31 {
 		w.Violatef("names", fmt.Sprintf("%d/table", y), "term table of %d has %d entries", y, len(tbl))
 	}
+	held := append([]float64(nil), jq...)
 	var next []float64
 	if y < maxYear {
 		next = calendar.NewLunarYear(y + 1).GetJieQiJulianDays()
 	}
+	// a table a caller was handed stays that year's table when other years are computed afterwards
+	calendar.NewLunarYear(y - 1)
+	for i := range held {
+		if jq[i] != held[i] || ly.GetJieQiJulianDays()[i] != held[i] {
+			w.Violatef("held-table", fmt.Sprintf("%d/%d", y, i), "the term instants obtained for %d changed after years %d and %d were computed: entry %d was JD %.7f, is now %.7f", y, y+1, y-1, i, held[i], jq[i])
+			jq = held
+			break
+		}
+	}
+	w.Eval(1)
 	var prevSecs int64
 	for i := 0; i < 31; i++ {
 		key := fmt.Sprintf("%d/%s", y, termKeys31[i])
